@@ -65,7 +65,7 @@ theorem strip_of_noEdge {L : Str} (h : NoEdgeWs L) : strip L = L := by
 theorem strip_append_space {L : Str} (h : NoEdgeWs L) : strip (L ++ [32]) = L := by
   obtain ⟨⟨a, l, rfl, ha⟩, ⟨b, l', hr, hb⟩⟩ := h
   have h1 : lstrip (a :: l ++ [32]) = a :: l ++ [32] := by
-    simp [lstrip, List.dropWhile, ha]
+    simp [lstrip, ha]
   have hsp : isWs 32 = true := by decide
   simp only [strip, h1, rstrip, List.reverse_append, List.reverse_cons, List.reverse_nil, List.nil_append,
     List.singleton_append, List.dropWhile, hsp]
